@@ -299,7 +299,7 @@ def _spec_case(draw) -> dict:
     muts = []
     nm = draw(st.sampled_from([0, 1, 1, 2, 2, 3]))
     for _ in range(nm):
-        kind = draw(st.sampled_from(["self_loop", "back_edge", "back_edge", "missing", "missing"]))
+        kind = draw(st.sampled_from(["self_loop", "back_edge", "back_edge", "missing", "missing", "surrogate_name"]))
         name, _, prov = draw(st.sampled_from(nodes))
         h = _holder(spec, name)
         if kind == "self_loop":
@@ -307,6 +307,13 @@ def _spec_case(draw) -> dict:
         elif kind == "back_edge":
             other = draw(st.sampled_from(nodes))
             _add_arg(h, draw(st.sampled_from(other[2])))
+        elif kind == "surrogate_name":
+            # the registered name of a surrogate is in the name space but is not a value anything provides
+            sur = [n for k_, n, _ in spec["decls"] if k_ == "surrogate"]
+            if sur:
+                _add_arg(h, draw(st.sampled_from(sur)))
+            else:
+                _add_arg(h, "zz0")
         else:
             for j in range(draw(st.integers(1, 2))):
                 _add_arg(h, f"zz{j}")
